@@ -2,12 +2,16 @@
    Proved: the leaf decoders (all encoders, all prefixers) and every primitive field Unpack return Ok or Err for
    every byte string - the model's Panic primitives (slice bounds, index, make) are unreachable there; the bitmap
    unpack loop terminates within fuel S(length input) because each iteration consumes at least one byte; network
-   header reads are covered by C16_read_safe. Composite and message level: the same model functions carry explicit
-   Panic/OutOfFuel outcomes, are compared with the library on the malformed streams, and their no-panic theorem
-   (C04_field_statement) is not yet proved. Wall-clock time and allocation are runtime behaviour measured by the
-   harness (partial; DESIGN.md section 6 C04). *)
+   header reads are covered by C16_read_safe. Composite and message level: for every specification in wfs / wfm
+   (non-negative lengths, distinct tags, tags of positive width or BER, fixed-prefix Binary/Hex bitmaps) and every
+   object of the right shape (new objects are), Unpack of a field (any nesting, all three composite modes) or of a
+   message returns a non-negative count or an error for EVERY byte string: the model's Panic outcomes (slice bounds,
+   index, state mismatch) and its fuel exhaustion (the TLV loop consumes at least one byte per iteration) are
+   unreachable (C04_field_no_panic, C04_message_no_panic). Wall-clock time and allocation are runtime behaviour
+   observed by the harness only (each case runs in a child process under ulimit -v and a timeout). *)
 From Iso Require Import Model.Base Model.Padding Model.Encoding Model.Prefix Model.Bitmap Model.Spec Model.Field
-     Proofs.BaseLemmas Proofs.EncodingProofs Proofs.PrefixProofs Proofs.FieldProofs Proofs.BitmapProofs.
+     Proofs.BaseLemmas Proofs.EncodingProofs Proofs.PrefixProofs Proofs.FieldProofs Proofs.BitmapProofs Proofs.CompositeProofs Proofs.NoPanicProofs.
+From Iso Require Import Model.Message.
 
 Theorem C04_enc_decode_total : forall e d n, match enc_decode e d n with Ok _ | Err _ => True | _ => False end.
 Proof. exact enc_decode_total. Qed.
@@ -32,9 +36,18 @@ Theorem C04_bitmap_loop_terminates : forall s minLen, 1 <= minLen -> bm_enc s <>
 Proof. exact bm_unpack_loop_progress. Qed.
 Print Assumptions C04_bitmap_loop_terminates.
 
-Definition C04_field_statement : Prop :=
-  forall (coherent : fspec -> Prop) s st d, coherent s ->
-    match snd (unpack_f s st d) with UOk _ | UErr _ _ => True | _ => False end.
+Theorem C04_field_no_panic : forall s, wfs s -> forall st d, okstate s st ->
+  good (snd (unpack_f s st d)) /\ okstate s (fst (unpack_f s st d)).
+Proof. exact unpack_f_good. Qed.
+Print Assumptions C04_field_no_panic.
+
+Theorem C04_new_objects_ok : forall s, wfs s -> okstate s (fresh s).
+Proof. exact fresh_okstate. Qed.
+Print Assumptions C04_new_objects_ok.
+
+Theorem C04_message_no_panic : forall S m d, wfm S -> okmsg S (m_fields m) -> good (snd (m_unpack S m d)).
+Proof. exact m_unpack_good. Qed.
+Print Assumptions C04_message_no_panic.
 
 Example C04_ex : is_err (dec_len PBerTLV 0 [x88; xff; xff; xff; xff; xff; xff; xff; xff]) = true /\
                  is_err (enc_decode EncLBCD [x12] 1099511627776) = true.
